@@ -44,6 +44,7 @@ type CfgSpec struct {
 	LogLevel       string          `json:"logLevel"` // log_level of the configuration ("" = error); the logging unit is set up as cmd/main.go does
 	Env            string          `json:"env"`      // request envelope of every request of the scenario (see applyEnvelope); "" = plain GET over https
 	Grpc           bool            `json:"grpc"`     // the checks travel over gRPC through server.Server (listener, interceptors) instead of being method calls
+	RealJwks       bool            `json:"realJwks"` // the filter is handed the key provider object itself, as cmd/main.go does (no key-source gates or events)
 	Replicas       int             `json:"replicas"` // service instances built from this one configuration (default 1); they share Redis and the provider, nothing else
 }
 
